@@ -57,6 +57,9 @@ type Proc struct {
 	TmpOtherFS bool `json:"tmp_other_fs,omitempty"`
 	// TZ: the process's time zone (environment fault: results must not depend on it)
 	TZ string `json:"tz,omitempty"`
+	// MaxOpenFiles > 0: the process runs under that descriptor limit (`ulimit -n`, a resource fault:
+	// descriptors that are not released promptly run out)
+	MaxOpenFiles int `json:"max_open_files,omitempty"`
 }
 
 type Record struct {
@@ -140,6 +143,9 @@ func (e *Env) RunProc(p *Proc, workDir string, timeout time.Duration, st *Stats,
 	ctx, cancel := context.WithTimeout(context.Background(), timeout)
 	defer cancel()
 	cmd := exec.CommandContext(ctx, e.SimprocBin, scriptPath, resultPath)
+	if p.MaxOpenFiles > 0 {
+		cmd = exec.CommandContext(ctx, "/bin/sh", "-c", fmt.Sprintf("ulimit -n %d && exec \"$0\" \"$@\"", p.MaxOpenFiles), e.SimprocBin, scriptPath, resultPath)
+	}
 	if gomaxprocs <= 0 {
 		gomaxprocs = 1
 	}
